@@ -83,7 +83,7 @@ func faultScenario(p faultParams) func() {
 	return func() {
 		o := world.Opts{N: p.n}
 		slowStream := strings.HasSuffix(p.fault, "-queued+slow-stream") // additionally a stream call with a blocked quorum function is pending on each failing node
-		queued := strings.HasSuffix(p.fault, "-queued") || slowStream // the request is still queued behind a busy sender when the fault strikes
+		queued := strings.HasSuffix(p.fault, "-queued") || slowStream   // the request is still queued behind a busy sender when the fault strikes
 		nStream := 0
 		if slowStream {
 			nStream = len(p.failing)
@@ -369,8 +369,8 @@ func faultInstances(tier string) []Instance {
 
 func init() {
 	register(&Check{ID: "C07",
-		Rule: "fault enumeration: n in {2,3} x failing subset (minority, majority, all) x failure kind {down at creation, crash, stream reset, crash+restart, crash / reset while the request is still queued behind a sender blocked on a full window (also with a stream call whose quorum function is blocked pending on the failing node), handler error with code Unknown/NotFound/Internal/Unavailable/Canceled} x threshold {healthy, healthy+1} x healthy nodes answering before / after the fault x fault position {before the call, free-running fault thread placed by the explorer at every instant within the deviation bound} x {quorum call, async (+correctable, combo in thorough)}; armed back-off timers are fired to a horizon of 4 rounds before the progress oracle; oracle: success iff the healthy replies satisfy the quorum function, Incomplete names every failing node exactly once with the handler's status or an unavailable-type error, the quorum function never sees a failed node, no call is left waiting for a node whose connection broke (unless that node received the request on a stream created after the fault); an outcome is (instance, result class)",
-		Gen:  faultInstances,
+		Rule:        "fault enumeration: n in {2,3} x failing subset (minority, majority, all) x failure kind {down at creation, crash, stream reset, crash+restart, crash / reset while the request is still queued behind a sender blocked on a full window (also with a stream call whose quorum function is blocked pending on the failing node), handler error with code Unknown/NotFound/Internal/Unavailable/Canceled} x threshold {healthy, healthy+1} x healthy nodes answering before / after the fault x fault position {before the call, free-running fault thread placed by the explorer at every instant within the deviation bound} x {quorum call, async (+correctable, combo in thorough)}; armed back-off timers are fired to a horizon of 4 rounds before the progress oracle; oracle: success iff the healthy replies satisfy the quorum function, Incomplete names every failing node exactly once with the handler's status or an unavailable-type error, the quorum function never sees a failed node, no call is left waiting for a node whose connection broke (unless that node received the request on a stream created after the fault); an outcome is (instance, result class)",
+		Gen:         faultInstances,
 		Assumptions: []string{"a node with a connection fault never answers (its handler blocks), so it can only contribute an error", "crashes drop in-flight frames (fakegrpc); eventual completion is decided after firing the armed library timers 4 rounds"},
 	})
 }
